@@ -92,7 +92,7 @@ func labelIdent(old ast.LabelIdent) ir.LocalIdent {
 
 // attrGroupID returns the ID (without '#' prefix) of the given attribute group
 // ID.
-func attrGroupID(old ast.AttrGroupID) int64 {
+func attrGroupID(old ast.AttrGroupID) (int64, error) {
 	text := old.Text()
 	const prefix = "#"
 	if !strings.HasPrefix(text, prefix) {
@@ -101,9 +101,9 @@ func attrGroupID(old ast.AttrGroupID) int64 {
 	text = text[len(prefix):]
 	id, err := strconv.ParseInt(text, 10, 64)
 	if err != nil {
-		panic(fmt.Errorf("unable to parse attribute group ID %q; %v", text, err))
+		return 0, errors.Errorf("unable to parse attribute group ID %q; %v", text, err)
 	}
-	return id
+	return id, nil
 }
 
 // --- [ Comdat identifiers ] --------------------------------------------------
@@ -134,7 +134,7 @@ func metadataName(old ast.MetadataName) string {
 }
 
 // metadataID returns the ID (without '!' prefix) of the given metadata ID.
-func metadataID(old ast.MetadataID) int64 {
+func metadataID(old ast.MetadataID) (int64, error) {
 	text := old.Text()
 	const prefix = "!"
 	if !strings.HasPrefix(text, prefix) {
@@ -143,9 +143,9 @@ func metadataID(old ast.MetadataID) int64 {
 	text = text[len(prefix):]
 	id, err := strconv.ParseInt(text, 10, 64)
 	if err != nil {
-		panic(fmt.Errorf("unable to parse metadata ID %q; %v", text, err))
+		return 0, errors.Errorf("unable to parse metadata ID %q; %v", text, err)
 	}
-	return id
+	return id, nil
 }
 
 // === [ Literals ] ============================================================
@@ -423,7 +423,10 @@ func (gen *generator) irFuncAttribute(old ast.FuncAttribute) (ir.FuncAttribute, 
 			Value: unquote(old.Val().Text()),
 		}, nil
 	case *ast.AttrGroupID:
-		id := attrGroupID(*old)
+		id, err := attrGroupID(*old)
+		if err != nil {
+			return nil, errors.WithStack(err)
+		}
 		def, ok := gen.new.attrGroupDefs[id]
 		if !ok {
 			// Attribute group definition for ID not found.
